@@ -6,6 +6,8 @@ import PlasVerif.Spec.Conform
 import PlasVerif.Spec.Calls
 import PlasVerif.Generated.ArgPaths
 import PlasVerif.Generated.CatPaths
+import PlasVerif.Spec.Mode
+import PlasVerif.Generated.Ligatures
 /-!
 Driver of C05.  Streams (words after `C05`):
   num <int|dec|dim|dimasis|glue|glueasis> <tok>…     raw token lists (also malformed): model only
@@ -297,6 +299,22 @@ def handle : List String → String
     match PlasVerif.Model.EnableBalance.firstUnbalanced PlasVerif.Generated.ArgPaths.skeletons with
     | none => "balanced\tbalanced"
     | some f => s!"unbalanced:{f}\tbalanced"
+  | "mode" :: ws =>
+    -- context stack, outermost first: T / F = the context's object sets math / text mode, N = it sets none
+    match ws.mapM (fun w => if w == "T" then some (some true) else if w == "F" then some (some false)
+                            else if w == "N" then some none else none) with
+    | some st => s!"ok:{boolStr (PlasVerif.Model.Mode.isMathMode st)}\tok:{boolStr (PlasVerif.Spec.Mode.modeAfter st)}"
+    | none => "bad-op"
+  | "ligs" :: ws =>
+    -- `<stack words> | <text code points>`: the text of a plain-text argument written under that context stack
+    let (sw, tw) := splitAt1 "|" ws
+    match sw.mapM (fun w => if w == "T" then some (some true) else if w == "F" then some (some false)
+                            else if w == "N" then some none else none), natList? tw with
+    | some st, some t =>
+      let m := PlasVerif.Model.Mode.argText st PlasVerif.Generated.Ligatures.charsubs t
+      let sp := if PlasVerif.Spec.Mode.modeAfter st then s!"t:{cpsStr t}" else "-"
+      s!"t:{cpsStr m}\t{sp}"
+    | _, _ => "bad-op"
   | ["catpaths"] =>
     match PlasVerif.Model.EnableBalance.firstUnbalanced PlasVerif.Generated.CatPaths.catSkeletons with
     | none => "balanced\tbalanced"
